@@ -416,7 +416,7 @@ CHECKS["C07"] = dict(
 
 CHECKS["C02"] = dict(
     pkg="c02", level="exploration",
-    props=[dict(name="TestPropConverge", quick=60, thorough=16 * 200, shards_quick=12, shards_thorough=16, shrinktime="120s",
+    props=[dict(name="TestPropConverge", quick=96, thorough=16 * 200, shards_quick=12, shards_thorough=16, shrinktime="120s",
                 timeout_quick=1800, timeout_thorough=10800)],
     rule="two real instances on loopback TCP (upstream 'cloud', downstream 'dev1'); on the downstream client.NewManager runs "
          "client.NewSyncClient for a sync node with period 1 s. After the initial catch-up a history of 6-20 steps is issued on "
